@@ -3,7 +3,7 @@ import PrqlModel.Model.Text
 /-! driver ops of Model/Text:
   b2c      <src> <bytes…>            -> per byte offset: char offset or `-` (Rust slice would panic)
   linecol  <src> <offs…>             -> per char offset: `l:c` or `-`
-  compose  <src> <start> <stop>      -> `l:c l:c` or `panic` (the location assert)
+  compose  <src> <start> <stop>      -> `l:c l:c`, `panic-bounds` (the location assert) or `panic-order` (ariadne label)
   lexconv  <src> <bs> <be>           -> `cs ce <reason>` or `panic`
   mapspan  <s:e s:e …> <i> <j>       -> `start stop`
   linetext <src> <l>                 -> text of line l (without terminators) or `-`
@@ -37,9 +37,10 @@ def handle (fields : List String) : Option String :=
   | ["compose", src, a, b] =>
     match a.toNat?, b.toNat? with
     | some a, some b =>
-      match composedLocation (decStr src) ⟨a, b, 1⟩ with
-      | some l => some (lc (some l.startLC) ++ " " ++ lc (some l.endLC))
-      | none => some "panic"
+      match composed (decStr src) ⟨a, b, 1⟩ with
+      | .ok l => some (lc (some l.startLC) ++ " " ++ lc (some l.endLC))
+      | .panicOutOfBounds => some "panic-bounds"
+      | .panicLabelOrder => some "panic-order"
     | _, _ => none
   | ["lexconv", src, a, b] =>
     match a.toNat?, b.toNat? with
